@@ -229,6 +229,28 @@ def collideOutgoingFirst (c : Cfg) (inc out : OpenMsg) : CollOut :=
   | none =>
     if dominant c.localID c.localAS out.id out.as then .session .o out else .session .p inc
 
+/-- one address family in an UpdatePeer edit: prefixes currently in the Adj-RIB-In, the
+    configured MaxPrefixes before and after the edit (0 = no limit) -/
+structure FamEdit where
+  count  : Nat
+  oldMax : Nat
+  newMax : Nat
+deriving Repr, DecidableEq, Inhabited
+
+/-- peer.isPrefixLimit on the new configuration of a family -/
+def famOver (f : FamEdit) : Bool := f.newMax > 0 && f.count > f.newMax
+
+/-- the loop of peer.updatePrefixLimitConfig over the families of the new configuration, in
+    their order: a family whose limit changed is re-checked, and ONE overrun is enough
+    (`reachLimit` is only ever set, never cleared).  `true`: the server moves the peer to
+    adminStatePfxCt (Cease/1). -/
+def pfxEditShuts : Bool → List FamEdit → Bool
+  | reach, [] => reach
+  | reach, f :: r =>
+    if f.oldMax ≠ f.newMax then
+      (if famOver f then pfxEditShuts true r else pfxEditShuts reach r)
+    else pfxEditShuts reach r
+
 /-- every way back to IDLE: fsmHandler.loop stores the state, idle() starts its timer with the
     current fsm.idleHoldTime; a PeerDown drops the Adj-RIB-In (no graceful restart). -/
 def toIdle (s : St) (idleHold : Nat) : St × List Out :=
